@@ -274,7 +274,10 @@ def run(chk):
             span = list(range(max(0, lib_base - 64), need + 1))
             pts |= set(rng.sample(span, min(len(span), 28)))
         else:
-            pts = set(range(max(0, lib_base - 300), need + 40)) | {0, 1, lib_base // 2, HUGE}
+            # every limit near the library baseline and in the last 1200 bytes below the program's need (where the failure
+            # walks through the program's own allocations), every 5th limit in between
+            pts = set(range(max(0, lib_base - 300), min(need, lib_base + 300))) | set(range(max(0, need - 1200), need + 40)) | \
+                set(range(lib_base, need, 5)) | {0, 1, lib_base // 2, HUGE}
         pts = sorted(p for p in pts if p >= 0)
         res = run_harness([req(L) for L in pts], per_req_timeout=30.0)
         n_pass = n_fail = 0
@@ -314,7 +317,7 @@ def run(chk):
                 chk.violation(f"sweep:{name}:not-monotone", f"limit {L} fails although the smaller limit {need} passes", dict(replay, got=r))
         sweep_stats[name] = {"final_bytes": final, "least_passing_limit": need, "limits_tried": len(pts), "passing": n_pass, "failing": n_fail}
     chk.coverage["sweeps"] = sweep_stats
-    chk.coverage["exhaustive"] = "thorough: every limit from (library baseline - 300) to (least passing limit + 40) for every program" if not quick else \
+    chk.coverage["exhaustive"] = "thorough: every limit within 300 bytes of the library baseline and from (least passing limit - 1200) to (least passing limit + 40), every 5th limit in between, for every program" if not quick else \
         "quick: ~40 limits per program (0, 1, around the library baseline, around the program's final size, around its least passing limit, 28 sampled in between)"
     chk.sample({"sweep": "ints", "src": PROGRAMS["ints"]})
 
